@@ -64,7 +64,8 @@ Definition add_label (nm : lname) (st : lstate) : label * lstate :=
 
 (* ---------- abstract assembly lines ---------- *)
 Inductive reg := RAp | RFp | R0 | R1 | R2 | RDefeat     (* state words addressed by label *)
-               | RGlob (g : nat).                         (* the word of the g-th int global: var_<name>_0 *)
+               | RGlob (g : nat)                          (* the word of the g-th int global: var_<name>_0 *)
+               | RBGlob (h : nat).                        (* the byte of the h-th bool global: var_<name>_0 *)
 (* an AssemblyExpression: IntLiteral, State(LabelRef of a register word), LabelRef of a code label *)
 (* the labels of the runtime library the fragment refers to *)
 Inductive stdlab := LibWriteInt | LibWriteBool | LibDivZero | LibStackOverflow.
@@ -83,7 +84,8 @@ Inductive ains :=
 | AYield (v : sym)                   (* yield v *)
 | AMov (d : reg) (v : sym)           (* mov [d], v *)
 | ASwso (b o v : sym)                (* swso b, o, v *)
-| ASbso (b o v : sym).               (* sbso b, o, v *)
+| ASbso (b o v : sym)                (* sbso b, o, v *)
+| ASbs (a v : sym).                  (* sbs a, v *)
 Inductive aline := ALabel (l : label) | AInstr (i : ains).
 
 (* ---------- source fragment ---------- *)
@@ -91,9 +93,11 @@ Inductive aline := ALabel (l : label) | AInstr (i : ains).
 Inductive unop := UNeg | UPos.
 Inductive iopd := OLit (z : Z) | OVar (i : nat) | OArith (op : src_arith) (x y : iopd) | OUn (u : unop) (x : iopd)
                | OGlob (g : nat).            (* the g-th int global (not const): State(var_<name>_0), volatile *)
+(* where a bool variable lives: a byte of the frame (IndirectByte) or a byte global (StateByte) *)
+Inductive bloc := BLocal (j : nat) | BGlobal (h : nat).
 Inductive bexpr :=
 | BLit (b : bool)
-| BVar (j : nat)                                       (* j-th bool local *)
+| BVar (v : bloc)                                      (* a bool variable: the j-th local or the h-th global *)
 | BCmp (op : src_cmp) (a b : iopd)
 | BNot (e : bexpr)
 | BAnd (e1 e2 : bexpr)
@@ -141,6 +145,7 @@ Definition reg_eqb (a b : reg) : bool :=
   match a, b with
   | RAp, RAp | RFp, RFp | R0, R0 | R1, R1 | R2, R2 | RDefeat, RDefeat => true
   | RGlob g, RGlob h => Nat.eqb g h
+  | RBGlob g, RBGlob h => Nat.eqb g h
   | _, _ => false
   end.
 (* `arg_in != asm.State(r_out)` *)
@@ -228,6 +233,12 @@ Fixpoint temps_b (e : bexpr) : nat :=
   | _ => 0%nat
   end.
 
+(* IndirectByte.get / StateByte.get *)
+Definition load_bool (E : env) (r : reg) (v : bloc) : aline :=
+  match v with
+  | BLocal j => AInstr (ALbso r (SReg RFp) (SLit (- bool_off E j)))
+  | BGlobal h => AInstr (ALbs r (SRegAddr (RBGlob h)))
+  end.
 (* ---------- bool_expr_branch ---------- *)
 Fixpoint lower_branch (E : env) (e : bexpr) (if_true if_false : list aline) (st : lstate)
   : list aline * lstate :=
@@ -264,12 +275,12 @@ Fixpoint lower_branch (E : env) (e : bexpr) (if_true if_false : list aline) (st 
       let (c2, st4) := lower_branch E e2 if_true if_false st3 in
       (c1 ++ [ALabel left_is_false] ++ c2 ++ (if true_end_goto then [] else [ALabel or_end]), st4)
   | BLit b => (if b then if_true else if_false, st)
-  | BVar j =>
+  | BVar v =>
       let (expr_is_true, st1) := add_label LIsTrue st in
       let (bool_end, st2) := add_label LBoolEnd st1 in
-      (* value = get_expr_value(r1, expr): `lbso [r1], [fp], -off`, State(r1) *)
+      (* value = get_expr_value(r1, expr): `lbso [r1], [fp], -off` resp. `lbs [r1], var_h`, State(r1) *)
       let value := SReg R1 in
-      ([AInstr (ALbso R1 (SReg RFp) (SLit (- bool_off E j)));
+      ([load_bool E R1 v;
         AInstr (AJump (SLab expr_is_true)); AInstr (AHc Cne value (SLit 0))]
          ++ if_false
          ++ (if false_end_goto then [] else goto bool_end)
@@ -303,7 +314,7 @@ Definition value_lowering_keep (E : env) (e : bexpr) (st : lstate) : list aline 
 Fixpoint eval_bool_value (E : env) (r_out : reg) (e : bexpr) (st : lstate) : list aline * sym * lstate :=
   match e with
   | BLit b => ([], SLit (if b then 1 else 0), st)
-  | BVar j => ([AInstr (ALbso r_out (SReg RFp) (SLit (- bool_off E j)))], SReg r_out, st)
+  | BVar v => ([load_bool E r_out v], SReg r_out, st)
   | BNot x =>
       let '(c, v, st') := eval_bool_value E r_out x st in
       (c ++ [AInstr (AArith Asub r_out (SLit 1) v)], SReg r_out, st')
@@ -366,6 +377,7 @@ Definition reg_str (r : reg) : string :=
   match r with
   | RAp => "ap" | RFp => "fp" | R0 => "r0" | R1 => "r1" | R2 => "r2" | RDefeat => "defeat"
   | RGlob g => "var_g" ++ dec (Z.of_nat g) ++ "_0"      (* the correspondence names the globals g0, g1, .. *)
+  | RBGlob h => "var_h" ++ dec (Z.of_nat h) ++ "_0"     (* .. and the bool globals h0, h1, .. *)
   end.
 Fixpoint bytes_str (l : list Z) : string :=
   match l with [] => EmptyString | b :: r => String (ascii_of_nat (Z.to_nat b)) (bytes_str r) end.
@@ -402,6 +414,7 @@ Definition print_ains (i : ains) : string :=
   | AMov d v => "mov [" ++ reg_str d ++ "], " ++ sym_str v
   | ASwso b o v => "swso " ++ sym_str b ++ ", " ++ sym_str o ++ ", " ++ sym_str v
   | ASbso b o v => "sbso " ++ sym_str b ++ ", " ++ sym_str o ++ ", " ++ sym_str v
+  | ASbs a v => "sbs " ++ sym_str a ++ ", " ++ sym_str v
   end.
 Definition print_aline (l : aline) : string :=
   match l with
@@ -421,7 +434,8 @@ Definition is_you_env (w : Z) (nparams : nat) : env :=
 (* ---------- two-pass label resolution at a base address ---------- *)
 Record regmap := mkregs { a_ap : Z; a_fp : Z; a_r0 : Z; a_r1 : Z; a_r2 : Z; a_defeat : Z;
                           a_lib : Z;        (* code address of the first instruction of the runtime library *)
-                          a_glob : nat -> Z }.  (* state address of the g-th int global *)
+                          a_glob : nat -> Z;    (* state address of the g-th int global *)
+                          a_bglob : nat -> Z }. (* state address of the h-th bool global *)
 (* offsets of the library's labels, from the REGENERATED Gen/GenStdlib.v *)
 Definition std_off (x : stdlab) : Z :=
   match x with
@@ -432,11 +446,13 @@ Definition regaddr (R : regmap) (r : reg) : Z :=
   match r with
   | RAp => a_ap R | RFp => a_fp R | R0 => a_r0 R | R1 => a_r1 R | R2 => a_r2 R | RDefeat => a_defeat R
   | RGlob g => a_glob R g
+  | RBGlob h => a_bglob R h
   end.
 (* the state section hidc emits: ap, fp, r0, r1, r2 in this order, one word each; the `defeat`
    word (present when defeat is virtualised) sits after the stack, at an address d; the runtime
    library is appended to the code at address lib *)
-Definition hidc_regs_g (w d lib : Z) (ga : nat -> Z) : regmap := mkregs 0 w (2 * w) (3 * w) (4 * w) d lib ga.
+Definition hidc_regs_gb (w d lib : Z) (ga gb : nat -> Z) : regmap := mkregs 0 w (2 * w) (3 * w) (4 * w) d lib ga gb.
+Definition hidc_regs_g (w d lib : Z) (ga : nat -> Z) : regmap := hidc_regs_gb w d lib ga (fun _ => 0).
 Definition hidc_regs (w d lib : Z) : regmap := hidc_regs_g w d lib (fun _ => 0).
 
 Definition res_sym (R : regmap) (lab : label -> Z) (s : sym) : operand :=
@@ -459,6 +475,7 @@ Definition res_ins (R : regmap) (lab : label -> Z) (i : ains) : instr :=
   | AMov d v => IMov (St (regaddr R d)) (rs v)
   | ASwso b o v => IStoreO WWord (rs b) (rs o) (rs v)
   | ASbso b o v => IStoreO WByte (rs b) (rs o) (rs v)
+  | ASbs a v => IStore WByte (rs a) (rs v)
   end.
 
 (* number of instructions *)
